@@ -125,25 +125,32 @@ def show_form(form):
     return 'autokwoargs(exceptions=[%s])(f)' % n(form[1])
 
 
-def apply_form(f, form):
-    """Really decorate f.  Returns the decorated callable (exceptions propagate)."""
+def decorator_for(form):
+    """The decorator OBJECT of a form (it can be applied to several functions)."""
     nm = lambda l: [name_of(x) for x in l]  # noqa: E731
     if form[0] == 'X':
         p, k, o = nm(form[1]), nm(form[2]), form[3]
         if o == 1:
-            return modifiers.posoargs(*p)(modifiers.kwoargs(*k)(f))
+            dp, dk = modifiers.posoargs(*p), modifiers.kwoargs(*k)
+            return lambda f: dp(dk(f))
         if o == 2:
-            return modifiers.kwoargs(*k)(modifiers.posoargs(*p)(f))
+            dp, dk = modifiers.posoargs(*p), modifiers.kwoargs(*k)
+            return lambda f: dk(dp(f))
         if p and k:
-            return modifiers._PokTranslator(f, posoargs=p, kwoargs=k)
+            return lambda f: modifiers._PokTranslator(f, posoargs=p, kwoargs=k)
         if p:
-            return modifiers.posoargs(*p)(f)
-        return modifiers.kwoargs(*k)(f)
+            return modifiers.posoargs(*p)
+        return modifiers.kwoargs(*k)
     if form[0] == 'S':
-        return modifiers.kwoargs(*nm(form[2]), start=name_of(form[1]))(f)
+        return modifiers.kwoargs(*nm(form[2]), start=name_of(form[1]))
     if form[0] == 'E':
-        return modifiers.posoargs(*nm(form[2]), end=name_of(form[1]))(f)
-    return modifiers.autokwoargs(exceptions=nm(form[1]))(f)
+        return modifiers.posoargs(*nm(form[2]), end=name_of(form[1]))
+    return modifiers.autokwoargs(exceptions=nm(form[1]))
+
+
+def apply_form(f, form):
+    """Really decorate f.  Returns the decorated callable (exceptions propagate)."""
+    return decorator_for(form)(f)
 
 
 def forms_for(ps, rng, full):
@@ -505,6 +512,15 @@ def _form_to(form):
 
 
 def show_shared(sh):
+    kind = sh.get('kind', 'shared')
+    if kind == 'derived':
+        return ('observed AFTER %s was built on top of this decorated callable (%s)'
+                % (show_form(_form_from(sh['form2'])).replace('(f)', '(g)'),
+                   {'direct': 'g used directly', 'instance': 'g is attribute m of a class and is looked up on an instance',
+                    'class': 'g is attribute m of a class and is looked up on the class'}[sh['mode']]))
+    if kind == 'reuse':
+        return ('ONE decorator object applied in turn to functions %s; this is number %d'
+                % (' / '.join('f%s' % show_ps(tuple(tuple(p) for p in q)) for q in sh['pss']), sh['index']))
     forms = [show_form(_form_from(f)) for f in sh['forms']]
     where = {'instance': 'attributes m0.. of one class, looked up on one instance',
              'class': 'attributes m0.. of one class, looked up on the class',
@@ -513,9 +529,55 @@ def show_shared(sh):
         ' / '.join(forms), where, sh['order'], sh['index'])
 
 
-def build_shared(ps, sh):
+def build_derived(ps, form, sh):
+    """g = form(f); a second decorator is then built on top of g (it may be
+    rejected); returns a getter for g itself."""
+    f = make_fn(ps, fresh=True)
+    with warnings.catch_warnings():
+        warnings.simplefilter('ignore')
+        g = apply_form(f, form)
+        owner = None
+        if sh['mode'] != 'direct':
+            cls = type('K', (object,), {'m': g})
+            owner = cls() if sh['mode'] == 'instance' else cls
+            g = cls.__dict__['m']
+        try:
+            apply_form(g, _form_from(sh['form2']))
+        except Exception:  # noqa: BLE001
+            pass
+    if owner is None:
+        return lambda: g
+    return lambda: getattr(owner, 'm')
+
+
+def build_reuse(form, sh):
+    dec = decorator_for(form)
+    res = []
+    with warnings.catch_warnings():
+        warnings.simplefilter('ignore')
+        for q in sh['pss']:
+            f = make_fn(tuple(tuple(p) for p in q), fresh=True)
+            try:
+                res.append((True, dec(f)))
+            except Exception as e:  # noqa: BLE001
+                res.append((False, e))
+    ok, val = res[sh['index']]
+
+    def getter():
+        if not ok:
+            raise val
+        return val
+    return getter
+
+
+def build_shared(ps, sh, form=None):
     """Builds the scenario, performs the first round of lookups in sh['order'],
     returns a getter for the translator number sh['index']."""
+    kind = sh.get('kind', 'shared')
+    if kind == 'derived':
+        return build_derived(ps, form, sh)
+    if kind == 'reuse':
+        return build_reuse(form, sh)
     f = make_fn(ps, fresh=True)
     with warnings.catch_warnings():
         warnings.simplefilter('ignore')
@@ -536,6 +598,54 @@ def build_shared(ps, sh):
             pass
     i = sh['index']
     return lambda: getattr(owners[i], attrs[i])
+
+
+def derived_scenarios(ps, rng):
+    """(form, bound, scenario): an admissible first decoration, then a second
+    decorator (any form, admissible or not) built on top of it."""
+    forms = forms_for(ps, rng, True)
+    firsts = []
+    for fm in forms:
+        spec = spec_decorate(ps, fm)
+        sel = spec_select(ps, fm)
+        if spec is None or not (sel[0] or sel[1]):
+            continue
+        firsts.append(fm)
+    if not firsts:
+        return
+    has_self = bool(ps) and ps[0][1] in ('PO', 'PK')
+    for fm in rng.sample(firsts, min(2, len(firsts))):
+        sel = spec_select(ps, fm)
+        modes = ['direct']
+        if has_self and ps[0][0] not in sel[0] and ps[0][0] not in sel[1]:
+            modes += ['instance', 'class']
+        for f2 in rng.sample(forms, min(3, len(forms))):
+            mode = rng.choice(modes)
+            yield fm, mode == 'instance', {'kind': 'derived', 'form2': _form_to(f2), 'mode': mode}
+
+
+def reuse_scenarios(ps, fns, rng):
+    """(ps_i, form, scenario): one decorator object applied to three functions."""
+    forms = forms_for(ps, rng, True)
+    autos = [fm for fm in forms if fm[0] == 'A' and fm[1]]
+    rest = [fm for fm in forms if not (fm[0] == 'A' and fm[1])]
+    chosen = autos[:3] + rng.sample(rest, min(2, len(rest)))
+    for fm in chosen:
+        others = []
+        if fm[0] == 'A' and fm[1]:
+            x = fm[1][0]
+            with_x = [q for q in fns if any(p[0] == x and p[1] == 'PK' and p[2] is not None for p in q)]
+            without = [q for q in fns if all(p[0] != x for p in q)]
+            if with_x:
+                others.append(rng.choice(with_x))
+            if without:
+                others.append(rng.choice(without))
+        while len(others) < 2:
+            others.append(rng.choice(fns))
+        pss = [ps] + others
+        sh0 = [[list(p) for p in q] for q in pss]
+        for i in range(len(pss)):
+            yield tuple(pss[i]), fm, {'kind': 'reuse', 'pss': sh0, 'index': i}
 
 
 def shared_forms(ps, rng):
@@ -748,6 +858,28 @@ def run(ctx, rep):
             if r is not None and r[0] != 'skip' and srng.random() < 0.15:
                 model_cases.append((ps, form, bound, r[0], r[1]))
     rep.coverage['shared_function_lookups'] = nshared
+    # ---- a decorated callable re-observed after a second decorator was built on top of it
+    drng = ctx.rng('derived')
+    nder = 0
+    dcand = [ps for ps in fns if sum(1 for p in ps if p[1] == 'PK') >= 2]
+    for ps in (drng.sample(dcand, min(len(dcand), 110)) if ctx.quick else dcand):
+        for form, bound, sh in derived_scenarios(ps, drng):
+            r = check_case(ps, form, bound, rep, stats, defer=deferred, getter=build_shared(ps, sh, form), shared=sh)
+            nder += 1
+            if r is not None and r[0] != 'skip' and srng.random() < 0.1:
+                model_cases.append((ps, form, bound, r[0], r[1]))
+    rep.coverage['reobserved_after_second_decoration'] = nder
+    # ---- one decorator object applied to several functions
+    rrng = ctx.rng('reuse')
+    nreuse = 0
+    rcand = [ps for ps in fns if any(p[1] == 'PK' for p in ps)]
+    for ps in (rrng.sample(rcand, min(len(rcand), 110)) if ctx.quick else rcand):
+        for psi, form, sh in reuse_scenarios(ps, fns, rrng):
+            r = check_case(psi, form, False, rep, stats, defer=deferred, getter=build_shared(psi, sh, form), shared=sh)
+            nreuse += 1
+            if r is not None and r[0] != 'skip' and srng.random() < 0.1:
+                model_cases.append((psi, form, False, r[0], r[1]))
+    rep.coverage['decorator_object_reuse'] = nreuse
     # ---- model correspondence inside Coq
     fixed = []
     for ps, form, bound, adv, results in model_cases:
@@ -803,7 +935,7 @@ def run(ctx, rep):
                 'assignment of the regular parameters, stacked both ways, irregular names, start=, end= for every '
                 'name, autokwoargs with every exceptions subset) x direct call and instance access x every call '
                 'shape (positional count 0..n+1 x every keyword subset incl. foreign z) with distinguishable values; '
-                'plus one function object decorated 2-3 times with different selections in one class / several classes, looked up in shuffled order on one instance and on the class; distinct = decorated functions whose advertised signature differs from the original or that raise'
+                'plus decorated callables re-observed after a second decorator was built on top, one decorator object applied to three functions, and one function object decorated 2-3 times with different selections in one class / several classes, looked up in shuffled order on one instance and on the class; distinct = decorated functions whose advertised signature differs from the original or that raise'
                 % ('samples of U(3,{a,b,c}) and U(4,{a..d})' if ctx.quick else 'U(3,{a,b,c}) + sample of U(4,{a..d})'))
     for c in model_cases[3:6] + model_cases[-3:]:
         rep.sample({'case': '%s with f%s%s' % (show_form(c[1]), show_ps(c[0]), ' (bound)' if c[2] else ''),
@@ -852,7 +984,7 @@ def replay(ctx, data):
     if 'call' in r:
         call = (r['call'][0], tuple(r['call'][1]))
     if 'shared' in r:
-        check_case(ps, form, r['bound'], rp, stats, only_call=call, getter=build_shared(ps, r['shared']), shared=r['shared'])
+        check_case(ps, form, r['bound'], rp, stats, only_call=call, getter=build_shared(ps, r['shared'], form), shared=r['shared'])
     else:
         check_case(ps, form, r['bound'], rp, stats, only_call=call)
     if rp.found:
